@@ -596,6 +596,28 @@ def check_elem_code(env: Env, code):
     return None
 
 
+def check_cast_spelling(env: Env, name):
+    """Another public route by which a dtype-like becomes a type: `cast(x, to=<spelling>)` must be typed
+    exactly like `Tensor(<spelling>)` (the canonical type of the ONNX element type). -> None | (key, what) | 'refused'"""
+    import spox.opset.ai.onnx.v17 as op
+    from spox import argument
+
+    sp = env.spell[name]
+    want = env.ts.Tensor(sp, (2,))
+    with warnings.catch_warnings():
+        warnings.simplefilter("ignore")
+        x = argument(env.ts.Tensor(env.np.float32 if want.dtype != env.np.dtype("float32") else env.np.int32, (2,)))
+        try:
+            y = op.cast(x, to=sp)
+        except Exception as e:  # noqa: BLE001
+            return f"refused: {type(e).__name__}"
+    if y.type is None:
+        return "refused: untyped"
+    if y.type != want or hash(y.type) != hash(want):
+        return ("spelling-unequal:cast", f"cast(x, to={name}) is typed {y.type!r}; Tensor({name}, (2,)) is {want!r}")
+    return None
+
+
 def check_elem_distinct(env: Env, c1, c2):
     """Two different ONNX element types must give unequal, mutually incompatible spox types."""
     names = {int(v): k for k, v in env.onnx.TensorProto.DataType.items()}
@@ -619,6 +641,7 @@ CHECKS = {
     "roundtrip_public": lambda env, c: check_roundtrip_public(env, c["type"]),
     "elem_code": lambda env, c: check_elem_code(env, c["code"]),
     "elem_distinct": lambda env, c: check_elem_distinct(env, c["c1"], c["c2"]),
+    "cast_spelling": lambda env, c: (lambda r: r if isinstance(r, tuple) else None)(check_cast_spelling(env, c["name"])),
     "dim_domain": lambda env, c: check_dim_domain(env, c["probe"])[1],
     "spelling": lambda env, c: check_spelling_pair(env, c["s1"], c["s2"], None if c["shape"] is None else tuple(c["shape"])),
     "refusal": lambda env, c: check_refusal(env, c["name"], c["defined"]),
@@ -754,6 +777,28 @@ def run(ck: core.Check):
                                {"check": "spelling", "s1": s1, "s2": s2, "shape": None if shape is None else list(shape)})
             ck.count(("spelling-group", code), len(names))
         ck.cov["spelling_pairs_compared"] = n_pairs
+        # the same spellings through another public entry point for dtype-likes (operator attributes)
+        cast_stats = {"typed": 0, "refused": 0}
+        refused_by_code = {}
+        for code, names in sorted(by_code.items()):
+            for nm in names:
+                try:
+                    res = check_cast_spelling(env, nm)
+                except Exception as e:  # noqa: BLE001
+                    res = f"refused: {type(e).__name__}"
+                ck.count(("cast-spelling", nm))
+                if isinstance(res, tuple):
+                    ck.failure(f"{res[0]}:{code_name.get(code, code)}", res[1], {"check": "cast_spelling", "name": nm})
+                elif res is None:
+                    cast_stats["typed"] += 1
+                else:
+                    cast_stats["refused"] += 1
+                    refused_by_code.setdefault(code, []).append(nm)
+            # a code for which some spellings are typed and others refused: the route depends on the spelling
+            if code in refused_by_code and len(refused_by_code[code]) < len(names):
+                ck.broken("correspondence", "C13 cast(to=...) accepts some spellings of an element type and refuses others",
+                          f"{code_name.get(code, code)}: refused {refused_by_code[code][:5]}")
+        ck.cov["cast_spellings"] = cast_stats
         if len(by_code) < 10:
             ck.broken("generator", "C13 spelling table", f"only {len(by_code)} accepted element types")
 
